@@ -115,6 +115,15 @@ def run(ctx):
             key = jr.PRNGKey(rng.randrange(1 << 30))
             pr = propagation.propagator_restricted(n_walkers=n)
             pu = propagation.propagator_unrestricted(n_walkers=n)
+            # the jitted local routine first
+            lr = pr.stochastic_reconfiguration_local({"walkers": W, "weights": wts, "key": key})
+            lu = pu.stochastic_reconfiguration_local({"walkers": [W, W], "weights": wts, "key": key})
+            evals += 2
+            if np.abs(np.array(lu["walkers"][0]) - np.array(lr["walkers"])).max() > 0 or np.abs(np.array(lu["walkers"][1]) - np.array(lr["walkers"])).max() > 0 \
+                    or np.abs(np.array(lu["weights"]) - np.array(lr["weights"])).max() > 1e-12:
+                spec_fail.append(("stochastic_reconfiguration_local", "restricted and unrestricted containers select the same walkers with the same weights (both spin blocks of a walker together)",
+                                  {"weights": [float(x) for x in wts], "up_equals_restricted": bool(np.abs(np.array(lu["walkers"][0]) - np.array(lr["walkers"])).max() == 0),
+                                   "dn_equals_restricted": bool(np.abs(np.array(lu["walkers"][1]) - np.array(lr["walkers"])).max() == 0)}))
             dr = pr.stochastic_reconfiguration_global({"walkers": W, "weights": wts, "key": key}, config.not_a_comm())
             du = pu.stochastic_reconfiguration_global({"walkers": [W, W], "weights": wts, "key": key}, config.not_a_comm())
             evals += 2
